@@ -19,9 +19,37 @@ use crate::world::*;
 use bitcoin::OutPoint;
 use hxlib::*;
 
+/// a wallet with `nc` non-cardinal outputs (style 0: all inscribed, 1: all runic, 2: alternating)
+/// between two cardinal ones; sizes around the multiples of 50 (a wallet that locks in batches
+/// must lock every batch)
+fn big_wallet(cmd: u64, nc: usize, style: u64, dry: bool) -> Line {
+  let mut l = L::new().p(cmd).p(1u8).p(nc + 2).p(0u8);
+  for j in 0..nc {
+    l.push(match style {
+      0 => 1u64,
+      1 => 2,
+      _ => 1 + (j as u64 % 2),
+    });
+  }
+  l.push(0u8);
+  l.push(dry);
+  l.done()
+}
+
 pub fn gen(rng: &mut Rng, tier: &str) -> Vec<Line> {
   let n = if tier == "thorough" { 300 } else { 36 };
   let mut v = Vec::new();
+  if tier == "thorough" {
+    for (i, nc) in [49usize, 50, 51, 75, 100, 101, 120].into_iter().enumerate() {
+      v.push(big_wallet(4, nc, i as u64 % 3, false));
+      v.push(big_wallet(0, nc, (i as u64 + 1) % 3, false));
+      v.push(big_wallet([1u64, 2, 5, 3][i % 4], nc, (i as u64 + 2) % 3, i % 2 == 1));
+    }
+  } else {
+    v.push(big_wallet(4, 51, 0, false));
+    v.push(big_wallet(0, 101, 2, false));
+    v.push(big_wallet(4, 75, 1, true));
+  }
   for i in 0..n {
     let cmd = [0u64, 1, 2, 4, 5, 3, 3, 2, 5, 3, 4, 2][i % 12];
     let dry = matches!(cmd, 2 | 3 | 4 | 5) && i % 12 >= 6;
@@ -63,7 +91,14 @@ pub fn run(line: &Line) -> Outcome {
         .iter()
         .enumerate()
         .map(|(j, f)| OutSpec {
-          value: if f & 3 != 0 { (60 + j as u64) * 100_000_000 } else { 100_000_000 },
+          // non-cardinal outputs are worth more than every cardinal one (coinbases: 50 BTC)
+          value: if f & 3 == 0 {
+            100_000_000
+          } else if flags.len() > 12 {
+            51 * 100_000_000 + j as u64 * 1_000
+          } else {
+            (60 + j as u64) * 100_000_000
+          },
           inscriptions: usize::from(f & 1 != 0),
           runes: if f & 2 != 0 { vec![(0, 10 + j as u128)] } else { vec![] },
           locked: f & 4 != 0,
